@@ -63,6 +63,37 @@ CLAIMED.update({
    "SessionManager and hybrid.Storage shutdown are not covered; timers are observed through the goroutines they wake",
    DS+"closer/completion-path interleavings; exactly-once counters, panic and goroutine-leak oracles"),
 })
+
+CLAIMED.update({
+ "C02": ("exploration", "DESIGN.md §4 C02",
+   "A real tunnel.Bridge (3/4 of runs: component level with the default StreamProcessor wiring; 1/4: attached through the wired node's TunnelOpen path) between two simulated ends streaming position-stamped payloads with drawn write/read plans, link segmentation and back-pressure, BandwidthLimit from 1 KiB/s to 10 MiB/s on the simulated clock, target attach before/after Start, graceful or early close/reset/half-close; oracles: per-chunk prefix check in both directions (replayed/skipped/corrupt/extra), completeness when no end closed early, the peer observes closure and the server forgets bridge, routing record and transports within a bound, byte counters, loose pacing bound.",
+   "source re-attach, cross-node forwarding and the quota path are not driven; half-close is treated as close",
+   DS+"copy-direction/attach/close interleavings; position-stamp prefix, completeness and bounded-closure oracles"),
+ "C04": ("exploration", "DESIGN.md §4 C04",
+   "A wired real node with listener L, target T, stranger S and a never-authenticated connection U; per run one cell of identity x credential (mapping id, right/wrong secret, foreign mapping, garbage resume token, nothing) x mapping state (active, revoked, expired, inactive, deleted, unknown) x tunnel state at arrival (none, bridge waiting/served, foreign bridge, waiting record of another node, local record without bridge), with a legitimate L/T pair streaming position-stamped bytes as background, store-read faults and a race with the legitimate target; oracle: an entitlement function written from the property text decides per request whether a success ack, an attachment (read off the bridge) or any victim byte on that connection is allowed; refused requests must get a failure ack.",
+   "no real second node: the cross-node cell is a waiting record of another node plus an unreachable peer address, so TargetReady is not observed; the cell 'authenticated target with an empty mapping secret' is a deliberate don't-care",
+   DS+"cell enumeration by seeded sampling with background victim stream; entitlement-function oracle"),
+ "C05": ("exploration", "DESIGN.md §4 C05",
+   "Hostile byte streams (random, mutated valid packets, adversarial length fields incl. max±1/2^31/2^32-1, all type/flag bytes, gzip members with extreme expansion, concatenated/truncated members, hostile JSON) fed under every segmentation law, truncated at drawn offsets then EOF/reset/stall, into (a) StreamProcessor.ReadPacket alone, (b) the wired node's real adapter read loop before authentication, (c) SessionManager.HandlePacket on fresh connections; oracles: no panic in any task, the read loop terminates after a finite stream (Read-after-end counter, bounded steps), TotalAlloc per decode/serve stays within 8 x the maximum body size, retention after close.",
+   "allocation is measured with runtime.ReadMemStats in a serialised world (exactly one task runs between two scheduler decisions); bombs are capped at 80 MiB inflated (256 MiB thorough) and rare",
+   DS+"segmentation/truncation faults; panic, termination and allocation-bound oracles"),
+ "C08": ("exploration", "DESIGN.md §4 C08",
+   "2-3 wired real nodes over one shared backend in the three shapes the server wires (memory, Redis via miniredis, tiered with local cache + shared Redis + persistent map); one scripted client connects, authenticates, heartbeats every 10-30 s for up to 30 simulated minutes, moves between nodes before/after the old node notices, closes, opens tunnel-type connections, or its node crashes; record lifetimes 30 s / 5 min; single store-write failures; oracle: on every surviving node both indexes (connection-state store FindClientNode and client runtime state) must name the most recent successful control handshake whose connection is still open, and not-connected after the last close.",
+   "one client at a time; SendCommandToClient is observed only up to its FindClientNode call (the next step needs the real TCP pool)",
+   DS+"multi-node histories with storage-operation interleavings, node crash and store faults; reference-location oracle"),
+ "C11": ("exploration", "DESIGN.md §4 C11",
+   "A wired real node with every handler set registered; connections U0/U1 (never authenticated), A, B, S send every command type the live registry reports plus the special-cased types (SOCKS5 tunnel request, DNS resolve/query and their responses, traffic report, HTTP proxy response, notifications) with honest or forged identity fields against objects owned by A, by B, shared or nonexistent; handler goroutines, one injected store error and sender-closes-after-send are scheduled; oracle: snapshot diff of the whole store and of every other client's inbox around each command: nothing changes or is delivered for unauthenticated senders, changed or disclosed objects have the sender's connection identity as a party, answers are accepted only from the client they were asked of.",
+   "reaching an unrelated authenticated client through DNS forwarding is not flagged (not clearly forbidden by the text); get_base_domains and gen_subdomain are treated as public",
+   DS+"command x identity x ownership cells; store/inbox snapshot-diff oracle"),
+ "C17": ("exploration", "DESIGN.md §4 C17",
+   "Five admission points, one per run: SessionManager.CreateConnection (MaxConnections), ClientRegistry.Register (control cap, evict-oldest), TunnelRegistry.Register (control that stays clean), BaseMappingHandler per-mapping MaxConnections, and the per-client quotas on active codes and mappings over a shared simulated store with 1-2 nodes; limits 0 (unlimited), 1, 2, 3, 10 with occupancy preset to limit-1/-2 and 2-6 racing admissions and releases at map/atomic/statement or storage-operation granularity, single store errors; oracle: a harness-side occupancy counter and the component's own counters never exceed the limit, limit 0 admits everything, a refused request leaves state unchanged.",
+   "quotas are exercised on the memory backend only; limit 0 is not drawn for the two store quotas (not documented as unlimited)",
+   DS+"racing admissions at the boundary; occupancy-invariant oracle"),
+ "C19": ("exploration", "DESIGN.md §4 C19",
+   "1-2 nodes each with the real HTTPDomainMappingRepository (memory / hybrid-memory / hybrid-Redis backends), the real create/delete/list command handlers, the legacy DomainRegistry and DomainProxyModule.lookupMapping; 2-4 clients create/delete/look up overlapping names concurrently (same name on different nodes, create-delete-create by someone else, double delete, deactivate, expiry and counter lifetime via clock advance, Host spellings with ports, case, IPv6 literals), single store-write failures and node crashes between index claim and record write; oracle: an interval-based reference owner per name: at most one active reachable mapping per name, lookups return the reference owner's client/target or an error, only the owner's delete succeeds and frees the name, inactive/expired never route.",
+   "the management (legacy) create/delete path is re-enacted by the harness on the real registry and repository; any rejected lookup is accepted",
+   DS+"storage-operation interleavings, write-failure and crash injection; interval reference-owner oracle"),
+})
 props=[json.loads(l) for l in open('/verif/properties.jsonl')]
 checks=[]
 na=[]
